@@ -15,16 +15,27 @@ type cacheControl struct {
 
 func parseCacheControl(ccHeader string) (cacheControl, error) {
 	cc := cacheControl{}
+	var parseErr error
 	// Parse the Cache-Control header for max-age directive
 	for directive := range strings.SplitSeq(ccHeader, ",") {
 		directive = strings.TrimSpace(directive)
-		if directive == "no-cache" || directive == "no-store" {
+		// Directive names are case-insensitive (RFC 9111 section 5.2).
+		name, value, hasValue := strings.Cut(directive, "=")
+		name = strings.ToLower(strings.TrimSpace(name))
+		switch name {
+		case "no-cache", "no-store", "private":
 			cc.noCache = true
-		} else if after, ok := strings.CutPrefix(directive, "max-age="); ok {
+		case "max-age":
 			// max-age directive specifies the maximum amount of time a response is considered fresh in seconds.
-			maxAge, err := strconv.ParseInt(after, 10, 64)
-			if err != nil {
-				return cacheControl{}, fmt.Errorf("%w: %v", ErrParseMaxAge, err)
+			// The value may be sent as a token or as a quoted-string.
+			value = strings.Trim(strings.TrimSpace(value), "\"")
+			maxAge, err := strconv.ParseInt(value, 10, 64)
+			if !hasValue || err != nil {
+				// An unusable max-age gives no freshness information: do not cache, but keep
+				// honouring the other directives instead of discarding the whole header.
+				cc.noCache = true
+				parseErr = fmt.Errorf("%w: %q", ErrParseMaxAge, directive)
+				continue
 			}
 			if maxAge < 1 {
 				cc.noCache = true // If max-age is less than 1, treat it as no-cache
@@ -35,5 +46,5 @@ func parseCacheControl(ccHeader string) (cacheControl, error) {
 		}
 	}
 
-	return cc, nil
+	return cc, parseErr
 }
